@@ -62,6 +62,11 @@ func c19Values(thorough bool) []interface{} {
 	d2 := c19Containers(d1)
 	pool := append(append([]interface{}{}, d1...), d2...)
 	out := append([]interface{}{}, pool...)
+	// documents larger than anything a size-capped buffer pool would keep (the
+	// reader has its limit raised); they come first, so that every later read in
+	// the process draws from pools these have been through
+	huge := strings.Repeat("0123456789abcdef", 300<<6) // 300 KiB
+	out = append([]interface{}{huge, []interface{}{huge[:270000], 1}}, out...)
 	out = append(out, []interface{}{}, map[string]interface{}{})
 	for _, a := range pool {
 		out = append(out, []interface{}{a}, map[string]interface{}{"a": a})
